@@ -16,6 +16,7 @@ inductive Op where
   | cp (src dst : Nat) (len : Int)
   | rm (seq : Nat) (b e : Int)
   | q (seq : Nat) (pos : Int)
+  | sc (ex : List Nat)
 
 def pOp : TP Op := do
   let k ← tok
@@ -29,6 +30,7 @@ def pOp : TP Op := do
   | "C" => return .cp (← nat) (← nat) (← int)
   | "R" => return .rm (← nat) (← int) (← int)
   | "Q" => return .q (← nat) (← int)
+  | "E" => return .sc (← listOf nat)
   | _ => failure
 
 def pWindow : TP (Option Int) := do
@@ -76,14 +78,24 @@ def showLayout (c : Cache) (seqIds : List Nat) (fwdOk : Bool) : String :=
   let cur := if fwdOk then s!" cur={c.curLoc}:{showNat c.curRange.min}:{showNat c.curRange.max}" else ""
   s!"cells={joinWith "," cells} rows={joinWith "," rows} ranges={joinWith "," ranges}{cur}"
 
+/-- per token of the current batch: `:[pos.id.shift,...]` of the locations its mask row exposes -/
+def showExposed (c : Cache) : String :=
+  String.join ((enumFrom 0 c.curBatch).map (fun (i, t) => ":" ++ showKeys ((exposedAt c i t).map (fun j =>
+    let cell := c.cells.getD j Cell.empty
+    let row := c.rows.getD j default
+    [cell.pos, (row.id : Int), row.shift]))))
+
 structure Acc where
   c : Cache
   xs : List String   -- reversed
   ls : List String
   dead : Bool
+  /-- inside an accepted forward pass (the last op other than SetCausal was an accepted forward) -/
+  cur : Bool := false
 
-def stepOp (seqIds : List Nat) (a : Acc) (op : Op) : Acc :=
-  if a.dead then a else
+def stepOp (seqIds : List Nat) (a0 : Acc) (op : Op) : Acc :=
+  if a0.dead then a0 else
+  let a : Acc := match op with | .sc _ => a0 | _ => { a0 with cur := false }
   match op with
   | .fwd toks =>
     let b := toks.map (·.1)
@@ -93,28 +105,31 @@ def stepOp (seqIds : List Nat) (a : Acc) (op : Op) : Acc :=
       { a with c := c1, xs := s!"F:err:full;abs={showKeys (absKeys c1)}" :: a.xs, ls := showLayout c1 seqIds false :: a.ls }
     | (c1, .ok) =>
       let c2 := put c1 (toks.map (·.2))
-      let per := b.map (fun t => ":" ++ showKeys ((exposed c2 t).map (fun j =>
-        let cell := c2.cells.getD j Cell.empty
-        let row := c2.rows.getD j default
-        [cell.pos, (row.id : Int), row.shift])))
-      { a with c := c2, xs := s!"F:ok{String.join per};abs={showKeys (absKeys c2)}" :: a.xs,
+      { a with cur := true, c := c2, xs := s!"F:ok{showExposed c2};abs={showKeys (absKeys c2)}" :: a.xs,
                ls := showLayout c2 seqIds true :: a.ls }
   | .cp src dst len =>
-    let c1 := copyPrefix a.c src dst len
+    let c1 := OllamaVerif.Causal.copyPrefix a.c src dst len
     { a with c := c1, xs := s!"C;abs={showKeys (absKeys c1)}" :: a.xs, ls := showLayout c1 seqIds false :: a.ls }
   | .rm seq b e =>
-    let (c1, r) := remove a.c seq b e
+    let (c1, r) := OllamaVerif.Causal.remove a.c seq b e
     let rs := match r with | .ok => "ok" | .shared => "err:shared" | .notsup => "err:notsup"
     { a with c := c1, xs := s!"R:{rs};abs={showKeys (absKeys c1)}" :: a.xs, ls := showLayout c1 seqIds false :: a.ls }
   | .q seq pos =>
     let r := canResume a.c seq pos
     { a with xs := s!"Q:{r};abs={showKeys (absKeys a.c)}" :: a.xs, ls := showLayout a.c seqIds false :: a.ls }
+  | .sc ex =>
+    let c1 := setCausal a.c ex
+    if a.cur then
+      { a with c := c1, xs := s!"E{showExposed c1};abs={showKeys (absKeys c1)}" :: a.xs, ls := showLayout c1 seqIds true :: a.ls }
+    else
+      { a with c := c1, xs := s!"E:stale;abs={showKeys (absKeys c1)}" :: a.xs, ls := showLayout c1 seqIds false :: a.ls }
 
 def opSeqs : Op → List Nat
   | .fwd toks => toks.map (·.1.seq)
   | .cp s d _ => [s, d]
   | .rm s _ _ => [s]
   | .q s _ => [s]
+  | .sc _ => []
 
 def pHistory : TP (Cache × List Op) := do
   let vbits ← nat
@@ -129,7 +144,7 @@ def pHistory : TP (Cache × List Op) := do
 
 def runHistory (layout : Bool) (c : Cache) (ops : List Op) : String :=
   let seqIds := sortNat ((ops.flatMap opSeqs).eraseDups)
-  let a := ops.foldl (stepOp seqIds) ⟨c, [], [], false⟩
+  let a := ops.foldl (stepOp seqIds) ⟨c, [], [], false, false⟩
   joinWith " | " (if layout then a.ls.reverse else a.xs.reverse)
 
 /-! wrapper histories: `kw-x|kw-l <order> <history>`; order 1 = [SWA, causal], 2 = [causal, SWA] -/
@@ -139,9 +154,11 @@ structure WAcc where
   xs : List String
   ls : List String
   dead : Bool
+  cur : Bool := false
 
-def wStepOp (seqIds : List Nat) (a : WAcc) (op : Op) : WAcc :=
-  if a.dead then a else
+def wStepOp (seqIds : List Nat) (a0 : WAcc) (op : Op) : WAcc :=
+  if a0.dead then a0 else
+  let a : WAcc := match op with | .sc _ => a0 | _ => { a0 with cur := false }
   let absS := fun (c : Cache) => s!"abs={showKeys (absKeys c)}"
   let fin := fun (cs : List Cache) (res : String) (details : List String) (fwdOk : Bool) =>
     let xs := (cs.zip details).map (fun (c, d) => s!"{d};{absS c}")
@@ -155,11 +172,7 @@ def wStepOp (seqIds : List Nat) (a : WAcc) (op : Op) : WAcc :=
     | (cs1, .full) => fin cs1 "F:err:full" (cs1.map (fun _ => "")) false
     | (cs1, .ok) =>
       let cs2 := wPut cs1 (toks.map (·.2))
-      let details := cs2.map (fun c2 => String.join (b.map (fun t => ":" ++ showKeys ((exposed c2 t).map (fun j =>
-        let cell := c2.cells.getD j Cell.empty
-        let row := c2.rows.getD j default
-        [cell.pos, (row.id : Int), row.shift])))))
-      fin cs2 "F:ok" details true
+      { fin cs2 "F:ok" (cs2.map showExposed) true with cur := true }
   | .cp src dst len =>
     let cs1 := wCopyPrefix a.cs src dst len
     fin cs1 "C" (cs1.map (fun _ => "")) false
@@ -169,6 +182,10 @@ def wStepOp (seqIds : List Nat) (a : WAcc) (op : Op) : WAcc :=
     fin cs1 s!"R:{rs}" (cs1.map (fun _ => "")) false
   | .q seq pos =>
     fin a.cs s!"Q:{wCanResume a.cs seq pos}" (a.cs.map (fun _ => "")) false
+  | .sc ex =>
+    let cs1 := wSetCausal a.cs ex
+    if a.cur then fin cs1 "E" (cs1.map showExposed) true
+    else fin cs1 "E:stale" (cs1.map (fun _ => "")) false
 
 def pWHistory : TP (List Cache × List Op) := do
   let order ← nat
@@ -186,7 +203,7 @@ def pWHistory : TP (List Cache × List Op) := do
 
 def runWHistory (layout : Bool) (cs : List Cache) (ops : List Op) : String :=
   let seqIds := sortNat ((ops.flatMap opSeqs).eraseDups)
-  let a := ops.foldl (wStepOp seqIds) ⟨cs, [], [], false⟩
+  let a := ops.foldl (wStepOp seqIds) ⟨cs, [], [], false, false⟩
   joinWith " | " (if layout then a.ls.reverse else a.xs.reverse)
 
 /-! encoder histories: `enc <permV> <nops> (S n base idx reserve | P id | R b e)*` -/
